@@ -381,3 +381,16 @@ Proof.
   - unfold NRInv. cbn [fst sl_st]. repeat split; [exact Hv].
   - split; [exact T'|exact A].
 Qed.
+
+(* walk() itself: every state of an accepted whole walk has a non-negative speed *)
+Theorem sl_full_walk_never_reverses (e : Env (F:=R)) pts offset_end fmax fuel x x' :
+  Forall pt_ok pts -> sl_full_walk fuel e pts offset_end fmax x = Ok x' ->
+  0 < k_dt (ts_k (sl_st (fst x))) -> 0 < mass_compound (ts_p (sl_st (fst x))) -> 0 <= k_speed (ts_k (sl_st (fst x))) ->
+  0 <= k_speed (ts_k (sl_st (fst x'))) /\
+  exists n, sl_full_run n e pts fmax x = Ok x' /\
+    forall k y, sl_full_run k e pts fmax x = Ok y -> 0 <= k_speed (ts_k (sl_st (fst y))).
+Proof.
+  intros Hpts Hw Hdt Hm Hv. destruct (sl_full_walk_is_run _ _ _ _ _ _ _ Hw) as (n & _ & Hrun & _).
+  split; [exact (sl_full_run_never_reverses e pts fmax Hpts n x x' Hdt Hm Hv Hrun)|].
+  exists n. split; [exact Hrun|]. intros k y Hy. exact (sl_full_run_never_reverses e pts fmax Hpts k x y Hdt Hm Hv Hy).
+Qed.
